@@ -28,6 +28,8 @@ func authMode(r *sim.Rng, nStates, perState int, cw, cwBlk *sim.CaseWriter) {
 		for _, k := range others {
 			g.Accounts = append(g.Accounts, &fsm.Account{Address: k.PublicKey().Address().Bytes(), Amount: 3_000_000_000})
 		}
+		ms := newMsAccount([]int{0, 1, 2}, 2)
+		g.Accounts = append(g.Accounts, &fsm.Account{Address: ms.addr, Amount: 2_000_000_000})
 		att, vic := newEthActor(), newEthActor()
 		g.Accounts = append(g.Accounts, &fsm.Account{Address: att.addr, Amount: 3_000_000_000}, &fsm.Account{Address: vic.addr, Amount: 3_000_000_000})
 		n, err := sim.NewFNode(g.State(), nil)
@@ -45,6 +47,10 @@ func authMode(r *sim.Rng, nStates, perState int, cw, cwBlk *sim.CaseWriter) {
 			}
 			if r.Chance(15) {
 				rlpAuthCase(r, n, att, vic, cw)
+				continue
+			}
+			if r.Chance(12) {
+				multisigCase(r, n, ms, cw)
 				continue
 			}
 			var base []byte
